@@ -386,7 +386,8 @@ fn data_pattern(name: &str, n: usize, seed: u64) -> Vec<u64> {
 }
 
 const PATTERNS: [&str; 4] = ["counting", "max", "alternating", "seeded"];
-const STARTS: [u64; 3] = [0, 1000, (1 << 32) - 64];
+/// even and odd word addresses (parity of the start decides the parity of the end for a given length)
+const STARTS: [u64; 6] = [0, 1, 1000, 1001, (1 << 32) - 64, (1 << 32) - 63];
 
 /// native::hash_memory: [start_addr, end_addr, ...] -> [H, ...], addresses are word addresses
 fn check_hash_memory(ctx: &Ctx, start: u64, data: &[u64], class: &str, verbose: bool) -> &'static str {
@@ -756,7 +757,7 @@ pub fn run(ctx: &Ctx, replay: Option<&Value>) -> i32 {
         );
     }
 
-    // ---- native::hash_memory: every length 0..=17 words x 3 start addresses x 4 data patterns
+    // ---- native::hash_memory: every length 0..=17 words x 6 start addresses (even and odd) x 4 data patterns
     let mut hm_cases: Vec<(u64, Vec<u64>, &'static str)> = vec![];
     for &start in &STARTS {
         for len in 0..=17usize {
@@ -788,7 +789,7 @@ pub fn run(ctx: &Ctx, replay: Option<&Value>) -> i32 {
     ctx.sample(json!({"proc": "std::crypto::hashes::native::hash_memory", "start": 1000, "data": data_pattern("counting", 12, 0),
                       "reference_top_first": hex(&rpo_digest_top_first(&data_pattern("counting", 12, 0)))}));
 
-    // ---- native::hash_memory_even: every even length 0..=16 words x 3 starts x 4 patterns x 2 initial states
+    // ---- native::hash_memory_even: every even length 0..=16 words x 6 starts x 4 patterns x 2 initial states
     let states: [(&str, Vec<u64>); 2] = [("zero_state", vec![0; 12]), ("distinct_state", (101..113).collect())];
     let mut hme_cases: Vec<(u64, Vec<u64>, Vec<u64>, &'static str)> = vec![];
     for &start in &STARTS {
@@ -835,10 +836,10 @@ pub fn run(ctx: &Ctx, replay: Option<&Value>) -> i32 {
     nontrivial += n_std;
     per_proc.insert(format!("{h}native::state_to_digest"), json!({"cases": n_std, "outcome_classes": classes}));
 
-    // ---- sha256::hash_memory: every message length 0..=max (counting bytes) at 2 addresses
+    // ---- sha256::hash_memory: every message length 0..=max (counting bytes) at 3 addresses (even and odd)
     let msgs = sha_memory_messages(ctx.tier);
     let sha_cases: Vec<(u64, &Vec<u8>, &'static str)> =
-        [100u64, 1 << 20].iter().flat_map(|&a| msgs.iter().map(move |(m, c)| (a, m, *c))).collect();
+        [100u64, 101, 1 << 20].iter().flat_map(|&a| msgs.iter().map(move |(m, c)| (a, m, *c))).collect();
     let t0 = std::time::Instant::now();
     let res: Vec<&'static str> =
         pool.install(|| sha_cases.par_iter().map(|(a, m, c)| check_sha256_memory(ctx, *a, m, c, false)).collect());
@@ -852,7 +853,7 @@ pub fn run(ctx: &Ctx, replay: Option<&Value>) -> i32 {
     per_proc.insert(
         format!("{h}sha256::hash_memory"),
         json!({"cases": sha_cases.len(), "message_lengths_in_bytes": format!("0..={} (all, counting bytes) + all-0xFF at 11 padding-boundary lengths", ctx.tier.pick(130, 300)),
-               "addresses": [100u64, 1 << 20], "outcome_classes": classes, "wall_s": (t0.elapsed().as_secs_f64() * 1000.0).round() / 1000.0}),
+               "addresses": [100u64, 101, 1 << 20], "outcome_classes": classes, "wall_s": (t0.elapsed().as_secs_f64() * 1000.0).round() / 1000.0}),
     );
 
     // ---- keccak256 bit (de)interleaving helpers
